@@ -271,7 +271,7 @@ TYPE_CLASS = [
     (r"^&?(mut )?(Option<)?&?(nostr::)?PublicKey>?$", "pubkey", "Nostr public key"),
     (r"^&?(mut )?(Option<)?&?(nostr::)?(Kind|Timestamp)>?$", "number", "event kind / timestamp"),
     (r"^&?(mut )?(Option<)?&?(LeafNodeIndex|Epoch|GroupEpoch)>?$", "number", "MLS leaf index / epoch number"),
-    (r"^&?(mut )?Secret<.*>$", "redacted", "Secret<T> has a redacting Debug and no Display"),
+    (r"^&?(mut )?(Option<)?&?Secret<.*>$", "redacted", "Secret<T> has a redacting Debug and no Display"),
     (r"^&?(mut )?&'static str$", "const", "&'static str"),
     (r"^&?(mut )?(crate::)?(error::)?Error$", "errMdk", "mdk Error enum (see errorFormats)"),
 ]
